@@ -22,11 +22,23 @@ pub enum Case {
 fn check_htyp(h: u8) -> CheckResult {
     // the byte must decode the same way whatever the ECU field holds, with or without a storage header, and under any
     // filter configuration that keeps the message
-    let fillings: [(&[u8; 4], &str, bool); 4] = [(b"EC\0\0", "EC", true), (b"\0\0\0\0", "", true), (b"ECU1", "ECU1", true), (b"\xffAB\0", "", false)];
+    let fillings: [(&[u8; 4], &str, bool); 4] = [
+        (b"EC\0\0", "EC", true),
+        (b"\0\0\0\0", "", true),
+        (b"ECU1", "ECU1", true),
+        (b"\xffAB\0", "", false),
+    ];
     for (ecu_bytes, ecu_text, canonical) in fillings {
         for storage in [false, true] {
             for fidx in 0..8u8 {
-                check_htyp_in(h, ecu_bytes, ecu_text, canonical, storage, fidx)?;
+                check_htyp_in(h, ecu_bytes, ecu_text, canonical, storage, fidx, 0)?;
+                if h & UEH != 0 && fidx < 2 {
+                    // verbose payloads: one argument written in the announced byte order, and one written in the other
+                    // order (a sender with a wrong MSBF bit): whatever the parser makes of the latter, a message it
+                    // returns still carries the flags this byte prescribes
+                    check_htyp_in(h, ecu_bytes, ecu_text, canonical, storage, fidx, 1)?;
+                    check_htyp_in(h, ecu_bytes, ecu_text, false, storage, fidx, 2)?;
+                }
             }
         }
         if h & WEID == 0 {
@@ -36,7 +48,15 @@ fn check_htyp(h: u8) -> CheckResult {
     Ok(Pass::new(true).class("htyp"))
 }
 
-fn check_htyp_in(h: u8, ecu_bytes: &[u8; 4], ecu_text: &str, canonical: bool, storage: bool, fidx: u8) -> Result<(), Violation> {
+fn check_htyp_in(
+    h: u8,
+    ecu_bytes: &[u8; 4],
+    ecu_text: &str,
+    canonical: bool,
+    storage: bool,
+    fidx: u8,
+    payload: u8,
+) -> Result<(), Violation> {
     // minimal message with the optional fields HTYP announces
     let mut b = vec![];
     if storage {
@@ -54,19 +74,59 @@ fn check_htyp_in(h: u8, ecu_bytes: &[u8; 4], ecu_text: &str, canonical: bool, st
         b.extend_from_slice(&0x0a0b_0c0du32.to_be_bytes());
     }
     if h & UEH != 0 {
-        b.extend_from_slice(&[0x40, 0]);
+        b.extend_from_slice(if payload == 0 { &[0x40, 0] } else { &[0x41, 2] });
         b.extend_from_slice(b"APP\0CTX\0");
     }
-    b.extend_from_slice(&[9, 8, 7, 6]);
+    if payload == 0 {
+        b.extend_from_slice(&[9, 8, 7, 6]);
+    } else {
+        // UINT 16 bit = 0x1234 and a string "ab": payload 1 in the announced order, payload 2 in the other one
+        let big = (h & MSBF != 0) == (payload == 1);
+        let w32 = |v: u32| {
+            if big {
+                v.to_be_bytes()
+            } else {
+                v.to_le_bytes()
+            }
+        };
+        let w16 = |v: u16| {
+            if big {
+                v.to_be_bytes()
+            } else {
+                v.to_le_bytes()
+            }
+        };
+        b.extend_from_slice(&w32(0x42));
+        b.extend_from_slice(&w16(0x1234));
+        b.extend_from_slice(&w32(0x200));
+        b.extend_from_slice(&w16(3));
+        b.extend_from_slice(b"ab\0");
+    }
     let len = (b.len() - start) as u16;
     b[start + 2..start + 4].copy_from_slice(&len.to_be_bytes());
     let filter = crate::oracle::filter_by_index(fidx);
-    let ctx = format!("HTYP {:#04x}, ECU field {}, storage header {}, filter #{}", h, hex_short(ecu_bytes), storage, fidx);
-    let r = guard(|| dlt_message(&b, filter.as_ref(), storage).map(|(rest, pm)| (rest.len(), pm))).map_err(|p| Violation::from_panic(&format!("dlt_message on {}", hex_short(&b)), &p))?;
+    let ctx = format!(
+        "HTYP {:#04x}, ECU field {}, storage header {}, filter #{}",
+        h,
+        hex_short(ecu_bytes),
+        storage,
+        fidx
+    );
+    let r = guard(|| dlt_message(&b, filter.as_ref(), storage).map(|(rest, pm)| (rest.len(), pm)))
+        .map_err(|p| Violation::from_panic(&format!("dlt_message on {}", hex_short(&b)), &p))?;
     let m = match r {
         Ok((0, ParsedMessage::Item(m))) => m,
         Ok((0, ParsedMessage::FilteredOut(_))) if filter.is_some() => return Ok(()),
-        other => return Err(viol!("htyp:parse", "minimal message ({}) did not parse: {}", ctx, short_dbg(&other))),
+        // arguments in the wrong byte order: refusing is fine
+        Ok((_, ParsedMessage::Invalid)) | Err(_) if payload == 2 => return Ok(()),
+        other => {
+            return Err(viol!(
+                "htyp:parse",
+                "minimal message ({}) did not parse: {}",
+                ctx,
+                short_dbg(&other)
+            ))
+        }
     };
     let hd = &m.header;
     let ok = hd.version == h >> 5
@@ -81,41 +141,101 @@ fn check_htyp_in(h: u8, ecu_bytes: &[u8; 4], ecu_text: &str, canonical: bool, st
         && hd.message_counter == 0x5a
         && m.extended_header.is_some() == (h & UEH != 0);
     if !ok {
-        return Err(viol!("htyp:fields", "{} ({:#010b}) decoded to {:?}", ctx, h, hd));
+        return Err(viol!(
+            "htyp:fields",
+            "{} ({:#010b}) decoded to {:?}",
+            ctx,
+            h,
+            hd
+        ));
     }
-    let back = guard(|| hd.header_type_byte()).map_err(|p| Violation::from_panic("header_type_byte", &p))?;
+    let back = guard(|| hd.header_type_byte())
+        .map_err(|p| Violation::from_panic("header_type_byte", &p))?;
     if back != h {
-        return Err(viol!("htyp:reencode", "{} re-encodes to {:#04x}", ctx, back));
+        return Err(viol!(
+            "htyp:reencode",
+            "{} re-encodes to {:#04x}",
+            ctx,
+            back
+        ));
     }
     // stamping the decoded message with a storage header does not touch its standard header
-    let stamped = guard(|| m.clone().add_storage_header(Some(dlt_core::dlt::DltTimeStamp { seconds: 1, microseconds: 2 }))).map_err(|p| Violation::from_panic("add_storage_header", &p))?;
-    let (hb, sb) = guard(|| (stamped.header.header_type_byte(), stamped.as_bytes())).map_err(|p| Violation::from_panic("header_type_byte after add_storage_header", &p))?;
+    let stamped = guard(|| {
+        m.clone()
+            .add_storage_header(Some(dlt_core::dlt::DltTimeStamp {
+                seconds: 1,
+                microseconds: 2,
+            }))
+    })
+    .map_err(|p| Violation::from_panic("add_storage_header", &p))?;
+    let (hb, sb) = guard(|| (stamped.header.header_type_byte(), stamped.as_bytes()))
+        .map_err(|p| Violation::from_panic("header_type_byte after add_storage_header", &p))?;
     if hb != h || sb.get(16) != Some(&h) {
-        return Err(viol!("htyp:after-add-storage-header", "{}: after add_storage_header the header type is {:#04x} (byte on the wire {:?})", ctx, hb, sb.get(16)));
+        return Err(viol!(
+            "htyp:after-add-storage-header",
+            "{}: after add_storage_header the header type is {:#04x} (byte on the wire {:?})",
+            ctx,
+            hb,
+            sb.get(16)
+        ));
     }
     let bytes = guard(|| m.as_bytes()).map_err(|p| Violation::from_panic("as_bytes", &p))?;
     if bytes.get(start) != Some(&h) {
-        return Err(viol!("htyp:reserialise", "{}: the re-serialised message carries header type {:?}", ctx, bytes.get(start)));
+        return Err(viol!(
+            "htyp:reserialise",
+            "{}: the re-serialised message carries header type {:?}",
+            ctx,
+            bytes.get(start)
+        ));
     }
     if canonical && bytes != b {
-        return Err(viol!("htyp:reserialise", "message ({}) re-serialises to {} instead of {}", ctx, hex_short(&bytes), hex_short(&b)));
+        return Err(viol!(
+            "htyp:reserialise",
+            "message ({}) re-serialises to {} instead of {}",
+            ctx,
+            hex_short(&bytes),
+            hex_short(&b)
+        ));
     }
     Ok(())
 }
 
 fn check_msin(b: u8) -> CheckResult {
     let want = message_type_of(b);
-    let got = guard(|| MessageType::try_from(b)).map_err(|p| Violation::from_panic(&format!("MessageType::try_from({:#04x})", b), &p))?;
+    let got = guard(|| MessageType::try_from(b))
+        .map_err(|p| Violation::from_panic(&format!("MessageType::try_from({:#04x})", b), &p))?;
     let got = match got {
         Ok(g) => g,
-        Err(e) => return Err(viol!("msin:refused", "MessageType::try_from({:#04x}) failed: {}", b, e)),
+        Err(e) => {
+            return Err(viol!(
+                "msin:refused",
+                "MessageType::try_from({:#04x}) failed: {}",
+                b,
+                e
+            ))
+        }
     };
     if got != want {
-        return Err(viol!("msin:decode", "MSIN {:#04x} (MSTP {} MTIN {}) decoded to {:?}, the layout prescribes {:?}", b, (b >> 1) & 7, b >> 4, got, want));
+        return Err(viol!(
+            "msin:decode",
+            "MSIN {:#04x} (MSTP {} MTIN {}) decoded to {:?}, the layout prescribes {:?}",
+            b,
+            (b >> 1) & 7,
+            b >> 4,
+            got,
+            want
+        ));
     }
-    let back = guard(|| u8::from(&got) | (b & 1)).map_err(|p| Violation::from_panic("u8::from(&MessageType)", &p))?;
+    let back = guard(|| u8::from(&got) | (b & 1))
+        .map_err(|p| Violation::from_panic("u8::from(&MessageType)", &p))?;
     if back != b {
-        return Err(viol!("msin:reencode", "MSIN {:#04x} re-encodes to {:#04x} ({:?})", b, back, got));
+        return Err(viol!(
+            "msin:reencode",
+            "MSIN {:#04x} re-encodes to {:#04x} ({:?})",
+            b,
+            back,
+            got
+        ));
     }
     // the sub-type conversions called directly: each reads the MTIN nibble of the message-info byte (whatever its other
     // bits hold) and writes it back into bits 4-7
@@ -126,17 +246,44 @@ fn check_msin(b: u8) -> CheckResult {
             ($ty:ident, $mstp:expr, $variant:ident) => {{
                 let want_sub = match message_type_of(mtin | ($mstp << 1)) {
                     MessageType::$variant(x) => x,
-                    other => return Err(viol!("msin:table", "layout table gives {:?} for MSTP {}", other, $mstp)),
+                    other => {
+                        return Err(viol!(
+                            "msin:table",
+                            "layout table gives {:?} for MSTP {}",
+                            other,
+                            $mstp
+                        ))
+                    }
                 };
-                let got_sub = guard(|| $ty::try_from(b)).map_err(|p| Violation::from_panic(&format!("{}::try_from({:#04x})", stringify!($ty), b), &p))?;
+                let got_sub = guard(|| $ty::try_from(b)).map_err(|p| {
+                    Violation::from_panic(&format!("{}::try_from({:#04x})", stringify!($ty), b), &p)
+                })?;
                 match got_sub {
                     Ok(g) if g == want_sub => {
-                        let back = guard(|| u8::from(&g)).map_err(|p| Violation::from_panic(&format!("u8::from(&{})", stringify!($ty)), &p))?;
+                        let back = guard(|| u8::from(&g)).map_err(|p| {
+                            Violation::from_panic(&format!("u8::from(&{})", stringify!($ty)), &p)
+                        })?;
                         if back != mtin {
-                            return Err(viol!(format!("msin:{}:reencode", stringify!($ty)), "{:?} re-encodes to {:#04x}, its code is {:#04x}", g, back, mtin));
+                            return Err(viol!(
+                                format!("msin:{}:reencode", stringify!($ty)),
+                                "{:?} re-encodes to {:#04x}, its code is {:#04x}",
+                                g,
+                                back,
+                                mtin
+                            ));
                         }
                     }
-                    other => return Err(viol!(format!("msin:{}:decode", stringify!($ty)), "{}::try_from({:#04x}) = {:?}, the layout prescribes {:?} for MTIN {}", stringify!($ty), b, other, want_sub, b >> 4)),
+                    other => {
+                        return Err(viol!(
+                            format!("msin:{}:decode", stringify!($ty)),
+                            "{}::try_from({:#04x}) = {:?}, the layout prescribes {:?} for MTIN {}",
+                            stringify!($ty),
+                            b,
+                            other,
+                            want_sub,
+                            b >> 4
+                        ))
+                    }
                 }
             }};
         }
@@ -154,17 +301,35 @@ fn check_msin(b: u8) -> CheckResult {
     }
     let len = m.len() as u16;
     m[2..4].copy_from_slice(&len.to_be_bytes());
-    let r = guard(|| dlt_message(&m, None, false).map(|(rest, pm)| (rest.len(), pm))).map_err(|p| Violation::from_panic(&format!("dlt_message on {}", hex_short(&m)), &p))?;
+    let r = guard(|| dlt_message(&m, None, false).map(|(rest, pm)| (rest.len(), pm)))
+        .map_err(|p| Violation::from_panic(&format!("dlt_message on {}", hex_short(&m)), &p))?;
     let Ok((0, ParsedMessage::Item(msg))) = r else {
-        return Err(viol!("msin:parse", "message with MSIN {:#04x} did not parse: {}", b, short_dbg(&r)));
+        return Err(viol!(
+            "msin:parse",
+            "message with MSIN {:#04x} did not parse: {}",
+            b,
+            short_dbg(&r)
+        ));
     };
     let e = msg.extended_header.as_ref().unwrap();
     if e.verbose != verbose || e.message_type != want {
-        return Err(viol!("msin:message", "message with MSIN {:#04x} has verbose={} type={:?}", b, e.verbose, e.message_type));
+        return Err(viol!(
+            "msin:message",
+            "message with MSIN {:#04x} has verbose={} type={:?}",
+            b,
+            e.verbose,
+            e.message_type
+        ));
     }
-    let eb = guard(|| e.as_bytes()).map_err(|p| Violation::from_panic("ExtendedHeader::as_bytes", &p))?;
+    let eb = guard(|| e.as_bytes())
+        .map_err(|p| Violation::from_panic("ExtendedHeader::as_bytes", &p))?;
     if eb[0] != b {
-        return Err(viol!("msin:ext-header-bytes", "extended header with MSIN {:#04x} re-serialises with {:#04x}", b, eb[0]));
+        return Err(viol!(
+            "msin:ext-header-bytes",
+            "extended header with MSIN {:#04x} re-serialises with {:#04x}",
+            b,
+            eb[0]
+        ));
     }
     Ok(Pass::new(true).class("msin"))
 }
@@ -211,7 +376,20 @@ pub fn check(c: &Case) -> CheckResult {
     match c {
         Case::Htyp(h) => check_htyp(*h),
         Case::Msin(b) => check_msin(*b),
-        Case::TypeInfo(w) => guard(|| check_type_info(*w)).map_err(|p| Violation::from_panic(&format!("TypeInfo::try_from / as_bytes for {:#010x}", w), &p))?.map(|a| Pass::new(a).class(if a { "typeinfo:accepted" } else { "typeinfo:refused" })),
+        Case::TypeInfo(w) => guard(|| check_type_info(*w))
+            .map_err(|p| {
+                Violation::from_panic(
+                    &format!("TypeInfo::try_from / as_bytes for {:#010x}", w),
+                    &p,
+                )
+            })?
+            .map(|a| {
+                Pass::new(a).class(if a {
+                    "typeinfo:accepted"
+                } else {
+                    "typeinfo:refused"
+                })
+            }),
     }
 }
 
@@ -227,7 +405,10 @@ pub fn run(run: &Run) {
     run.assume("the bit layout tables (model.rs message_type_of, refcodec.rs decode_type) are written from the AUTOSAR PRS and are the trusted reference");
     run.regressions(&replay);
     run.enumerate("htyp", 256, true, |i| {
-        let mut r = BlockReport { evaluations: 1, ..Default::default() };
+        let mut r = BlockReport {
+            evaluations: 1,
+            ..Default::default()
+        };
         match check_htyp(i as u8) {
             Ok(_) => r.nontrivial = 1,
             Err(v) => r.violation = Some((json!(Case::Htyp(i as u8)), v)),
@@ -238,7 +419,10 @@ pub fn run(run: &Run) {
         r
     });
     run.enumerate("msin", 256, true, |i| {
-        let mut r = BlockReport { evaluations: 1, ..Default::default() };
+        let mut r = BlockReport {
+            evaluations: 1,
+            ..Default::default()
+        };
         match check_msin(i as u8) {
             Ok(_) => r.nontrivial = 1,
             Err(v) => r.violation = Some((json!(Case::Msin(i as u8)), v)),
@@ -337,10 +521,17 @@ pub fn run(run: &Run) {
 pub fn replay(section: &str, case: &Json) -> Option<CheckResult> {
     if section == "type-info-after-neighbour" {
         // re-execute the two-call history
-        let parse = |v: &Json| v.as_str().and_then(|s| u32::from_str_radix(s.trim_start_matches("0x"), 16).ok());
+        let parse = |v: &Json| {
+            v.as_str()
+                .and_then(|s| u32::from_str_radix(s.trim_start_matches("0x"), 16).ok())
+        };
         let h = case["history"].as_array()?;
         let (first, w) = (parse(h.first()?)?, parse(h.get(1)?)?);
-        return Some(check_type_info(first).and_then(|_| check_type_info(w)).map(|_| Pass::new(true).class("history")));
+        return Some(
+            check_type_info(first)
+                .and_then(|_| check_type_info(w))
+                .map(|_| Pass::new(true).class("history")),
+        );
     }
     case_from::<Case>(case).map(|c| check(&c))
 }
